@@ -3,3 +3,8 @@ CLAIMS["C01"] = (
     "Generated tables in drawn column permutations are written through all four write paths and compared cell-by-cell, by field name, with an independently parsed view of the file bytes and with the re-loaded table. Held on everything explored; no claim of absence.",
     "Trusts numpy float64->float32 rounding as 'single-precision rounding' and the harness EM parser (512-byte header, x-fastest data).",
 )
+CLAIMS["C02"] = (
+    "property-based round trip + differential test of the STAR reader against an independent tokenizer (Hypothesis grammar generation)",
+    "Generated frame lists are written and re-read and compared with the generated data and with an independent tokenization of the written text; grammar-generated STAR texts are read and compared block by block, label by label, token by token with the independent tokenizer. Held on everything explored.",
+    "Trusts the harness tokenizer (oracle.star_tokenize) as the definition of the STAR subset; numeric equality up to 1e-15 abs / 1e-13 rel (pandas.to_numeric precision).",
+)
